@@ -46,6 +46,7 @@ func main() {
 		{Cfg: mk("4x1-late-polka", one, netsim.Config{Byz: []int{3}, Driver: "late-polka"}), Bound: b - 1},
 		{Cfg: mk("4x1-two-heights", one, netsim.Config{Byz: []int{3}, ByzMenu: false, TargetHeight: 2}), Bound: b - 1},
 		{Cfg: mk("4x1-restarts", one, netsim.Config{Byz: []int{3}, Restarts: true, NoByzMenu: true, TargetHeight: 2}), Bound: b - 1},
+		{Cfg: mk("7x1-two-byz", []int64{1, 1, 1, 1, 1, 1, 1}, netsim.Config{Byz: []int{5, 6}, ByzVariants: []string{"A", "B"}}), Bound: b - 1},
 		// the validator set changes while the chain runs: validator 1 is re-powered after height 1 (in force from height 3),
 		// the Byzantine validator is removed after height 2 (in force from height 4)
 		{Cfg: mk("4x1-valset-change", one, netsim.Config{Byz: []int{3}, NoByzMenu: true, TargetHeight: 5, ValScript: map[uint64][]int64{1: {1, 3, 1, 1}, 2: {1, 3, 1, 0}}}), Bound: b - 1},
